@@ -614,7 +614,7 @@ func (s *setupSpec) initModel() (*model, error) {
 				if e != nil {
 					return nil, e
 				}
-				val = m.appendTo(head, []*mval{last}, "")
+				val = m.appendTo(head, []*mval{last})
 			case "slice":
 				all, e := m.build(&vnode{T: "a", Kids: append(append([]*vnode{}, r.Kids...), &vnode{T: "s", Lit: 0})}, pre, nil)
 				if e != nil {
@@ -633,7 +633,7 @@ func (s *setupSpec) initModel() (*model, error) {
 				if e != nil {
 					return nil, e
 				}
-				val = m.appendTo(l, rr.window(), "")
+				val = m.concat(l, rr)
 			default:
 				return nil, fmt.Errorf("bad fresh form %q", s.Fresh)
 			}
